@@ -131,7 +131,7 @@ def run_case(rng, idx, tier, lane, ctx):
                 configs.append(cfg)
                 hostile = Hostile(np_seed(rng), prob=0.1) if cfg["hostile"] else None
                 g = np.linspace(0, horizon, rng.randint(3, 10)) if gridded else None
-                r = S.run_config(m, spec, V, x0, horizon, cfg, hostile=hostile, closed=True, grid=g)
+                r = S.run_config(m, spec, V, x0, horizon, cfg, hostile=hostile, closed=True, grid=g, raises="inconclusive")
                 for k, v in r["counters"].items():
                     counters[k] = counters.get(k, 0) + v
                 if r["inconclusive"]:
@@ -162,7 +162,3 @@ def run_case(rng, idx, tier, lane, ctx):
         res["witnesses"] = wit[:6]
     return res
 
-
-def classify(w):
-    from verifkit.props import c04
-    return c04.classify(w)
